@@ -139,3 +139,17 @@ Require Import GM.model.TypoDefParse GM.model.TypoDefI GM.proofs.TypoDefWf.
 Theorem C03_convert_typodef_model_safe_inert : forall tc c src o, unsafe c = false -> bytes_ok src -> ConvertModelTD tc c src = Ok o -> Inert o.
 Proof. exact ConvertModelTD_safe_inert. Qed.
 Print Assumptions C03_convert_typodef_model_safe_inert.
+
+(* the composition principle (DESIGN.md 3.1): the safe-mode theorems hold for all well-formed
+   trees, so ANY parser whose trees are well formed - property C05 - inherits them when composed
+   with the renderer model (conv parse c src = parse src >>= RenderHTML c src); the per-model
+   theorems above are instances *)
+Require Import GM.proofs.ConvertRelAll.
+Theorem C03_any_wf_parser_safe_inert : forall parse, (forall src t, parse src = Ok t -> wf_tree src t = true) ->
+  forall c src o, unsafe c = false -> conv parse c src = Ok o -> Inert o.
+Proof. exact conv_safe_inert. Qed.
+Print Assumptions C03_any_wf_parser_safe_inert.
+Theorem C03_any_wf_parser_safe_inert_xhtml : forall parse, (forall src t, parse src = Ok t -> wf_tree src t = true) ->
+  forall c src o, unsafe c = false -> xhtml c = true -> conv parse c src = Ok o -> InertX o.
+Proof. exact conv_safe_inert_xhtml. Qed.
+Print Assumptions C03_any_wf_parser_safe_inert_xhtml.
